@@ -146,9 +146,9 @@ def trace_structure(ctx):
         if ret.startswith("tuple") and int(ret[5:]) >= 11:
             stats["tuple_ge_11"] += 1
         # inline everything
-        T = pt.transform.deduplicate(pt.make_dict_of_named_arrays(dict(traced)))
         D = pt.make_dict_of_named_arrays(dict(direct))
         try:
+            T = pt.transform.deduplicate(pt.make_dict_of_named_arrays(dict(traced)))
             inl = pt.inline_calls(pt.tag_all_calls_to_be_inlined(T))
             dinl = pt.inline_calls(pt.tag_all_calls_to_be_inlined(pt.transform.deduplicate(D)))
         except Exception as e:   # noqa: BLE001
@@ -260,7 +260,10 @@ def selective_and_tagall(ctx):
         except Exception:   # noqa: BLE001   (reported by the main batch)
             continue
         cases += 1
-        texpr = pt.transform.deduplicate(pt.make_dict_of_named_arrays(traced))
+        try:
+            texpr = pt.transform.deduplicate(pt.make_dict_of_named_arrays(traced))
+        except Exception:   # noqa: BLE001   (reported by the main batch)
+            continue
         try:
             part, ntag = _pretag(texpr, rng, rng.choice([0.0, 0.3, 0.6, 1.0]))
         except Exception as e:   # noqa: BLE001
